@@ -55,7 +55,8 @@ GOOD = {
 }
 BAD = ["missing", "zero", "garbage", "garbage.gz", "torn", "boundary", "torn.gz", "damaged.gz", "damaged-head.gz", "garbage.lz4", "garbage.zst", "garbage.bz2"]
 SELECTORS = [None, "True", "r.n > 3", "r.s == 'a2' or r.s == 'a21' or r.s == 'a30'", "r.n == -1", "r.w == 'b3' or name(r) == 't/n'",
-             "has_field(r, 's') and any(c == 'a' for c in r.s)", "any(c in '24' for c in str(r.n)) and any(c != 'q' for c in name(r))"]
+             "has_field(r, 's') and any(c == 'a' for c in r.s)", "any(c in '24' for c in str(r.n)) and any(c != 'q' for c in name(r))",
+             "r.s == 'a2' or True", "not (r.s == 'a2')", "r.w == 'b3' or r.n > 20"]
 _SRC = {}
 
 
